@@ -442,3 +442,115 @@ impl Family for Bfs {
         json!({"bfs_from": hist_json(&self.prefix), "alphabet": self.alpha.iter().map(|a| a.short()).collect::<Vec<_>>(), "max_depth": self.max_depth, "max_pending_long_bytes_per_param": self.max_long})
     }
 }
+
+/// explicit (long) histories: state that must survive hundreds of commands or statements
+pub struct Histories {
+    pub label: String,
+    pub hists: Vec<(String, Vec<Action>)>,
+}
+
+impl Family for Histories {
+    fn name(&self) -> String {
+        format!("{}-long-histories", self.label)
+    }
+    fn len(&self) -> u64 {
+        self.hists.len() as u64
+    }
+    fn run(&self, idx: u64, st: &mut Stats) -> Result<(), Violation> {
+        let (label, h) = &self.hists[idx as usize];
+        st.nontrivial += 1;
+        st.bump("long_histories");
+        run_history(h, st).map(|_| ()).map_err(|mut v| {
+            v.msg = format!("{}: {}", label, v.msg);
+            v
+        })
+    }
+    fn describe(&self, idx: u64) -> J {
+        let (label, h) = &self.hists[idx as usize];
+        json!({"history": label, "commands": h.len(), "first": hist_json(&h[..h.len().min(6)]), "last": hist_json(&h[h.len().saturating_sub(4)..])})
+    }
+}
+
+fn ex(id: u32, bind: Bind) -> Action {
+    Action::Exec { id, bind, null_first: false, shim_ignores: false }
+}
+
+/// many open statements; many prepare/close cycles next to a long-lived statement
+pub fn scale_lifecycle() -> Vec<(String, Vec<Action>)> {
+    let mut v = Vec::new();
+    for n in [8u32, 255, 256, 257, 300, 1000] {
+        let mut h: Vec<Action> = (1..=n).map(|id| Action::Prepare { id, n: 1, ok: true }).collect();
+        h.push(ex(1, Bind::A));
+        h.push(ex(n, Bind::C));
+        h.push(ex(n / 2 + 1, Bind::B));
+        h.push(ex(1, Bind::Reuse));
+        h.push(Action::Close { id: 2 });
+        h.push(ex(n, Bind::Reuse));
+        h.push(ex(2, Bind::A)); // closed: must end the connection
+        v.push((format!("{} open statements, then execute the oldest, the newest and a closed one", n), h));
+    }
+    for k in [6usize, 255, 256, 257, 600] {
+        let mut h = vec![Action::Prepare { id: 1, n: 1, ok: true }, ex(1, Bind::D)];
+        for _ in 0..k {
+            h.push(Action::Prepare { id: 2, n: 2, ok: true });
+            h.push(ex(2, Bind::A));
+            h.push(Action::Close { id: 2 });
+        }
+        h.push(ex(1, Bind::Reuse));
+        h.push(Action::Long { id: 2, param: 0, chunk: 1 }); // closed: must end the connection
+        v.push((format!("one long-lived statement next to {} prepare/execute/close cycles", k), h));
+    }
+    v
+}
+
+/// many statements each with its own type table; long rebind/reuse histories
+pub fn scale_types() -> Vec<(String, Vec<Action>)> {
+    let binds = [Bind::A, Bind::B, Bind::C, Bind::D, Bind::E];
+    let mut v = Vec::new();
+    for n in [4u32, 256, 257, 300] {
+        let mut h: Vec<Action> = (1..=n).map(|id| Action::Prepare { id, n: 2, ok: true }).collect();
+        for id in 1..=n {
+            h.push(ex(id, binds[(id % 5) as usize]));
+        }
+        for id in 1..=n {
+            h.push(ex(id, Bind::Reuse));
+        }
+        h.push(ex(1, Bind::Reuse));
+        v.push((format!("{} statements bound with different type tables, then every one reused", n), h));
+    }
+    for len in [160usize, 700, 3000] {
+        let mut h: Vec<Action> = (1..=4).map(|id| Action::Prepare { id, n: 2, ok: true }).collect();
+        for id in 1..=4 {
+            h.push(ex(id, binds[id as usize]));
+        }
+        for i in 0..len {
+            let id = 1 + ((i * 7 + i / 5) % 4) as u32;
+            let bind = if i % 5 == 0 { binds[(i / 5) % 5] } else { Bind::Reuse };
+            h.push(Action::Exec { id, bind, null_first: i % 11 == 0, shim_ignores: i % 13 == 0 });
+        }
+        v.push((format!("4 statements, {} executions mixing rebinds and reuses", len), h));
+    }
+    v
+}
+
+/// long data followed by hundreds of inline executions
+pub fn scale_long_data() -> Vec<(String, Vec<Action>)> {
+    let mut v = Vec::new();
+    for e in [8usize, 255, 256, 257, 600] {
+        let mut h = vec![Action::Prepare { id: 1, n: 2, ok: true }, Action::Prepare { id: 2, n: 2, ok: true }];
+        h.push(Action::Long { id: 1, param: 0, chunk: 1 });
+        h.push(ex(1, Bind::C));
+        for i in 0..e {
+            h.push(ex(1, if i % 50 == 49 { Bind::A } else { Bind::Reuse }));
+            if i % 97 == 96 {
+                h.push(ex(2, Bind::C));
+            }
+        }
+        h.push(Action::Long { id: 1, param: 1, chunk: 2 });
+        h.push(Action::Long { id: 1, param: 1, chunk: 1 });
+        h.push(ex(1, Bind::C));
+        h.push(ex(1, Bind::Reuse));
+        v.push((format!("long data, then {} inline executions of the same statement, then long data again", e), h));
+    }
+    v
+}
